@@ -382,10 +382,34 @@ def _seed_variants(src: dict[str, str]) -> list[tuple[str, list[str], object]]:
     return out
 
 
+def _patched(src: dict[str, str], patch: pathlib.Path) -> dict[str, str]:
+    tmp = tempfile.mkdtemp(prefix="patchv_")
+    try:
+        for rel, text in src.items():
+            p = pathlib.Path(tmp, PKG, rel)
+            p.parent.mkdir(parents=True, exist_ok=True)
+            p.write_text(text, encoding="utf8")
+        r = subprocess.run(["patch", "-p1", "-s", "-d", tmp], input=patch.read_text(), capture_output=True, text=True)
+        if r.returncode != 0:
+            raise RuntimeError("patch failed: " + (r.stdout + r.stderr)[-200:])
+        return {p.relative_to(pathlib.Path(tmp, PKG)).as_posix(): p.read_text(encoding="utf8") for p in pathlib.Path(tmp, PKG).rglob("*.py")}
+    finally:
+        shutil.rmtree(tmp, ignore_errors=True)
+
+
+def _refactor_variants(src: dict[str, str]) -> list[tuple[str, object]]:
+    """The must-stay-silent corpus under /verif/refactors: behaviour-preserving refactorings written independently of the
+    checks (each with an equivalence harness, see refactors/README.md).  Every check must exit 0 on each of them."""
+    out = []
+    for patch in sorted((VERIF / "refactors").glob("*/patch.diff")):
+        out.append((f"refactor {patch.parent.name}", (lambda patch=patch: _patched(src, patch))))
+    return out
+
+
 def main(argv: list[str] | None = None) -> int:
     ap = argparse.ArgumentParser(prog="selftest")
     ap.add_argument("--jobs", type=int, default=16)
-    ap.add_argument("--only", choices=["silent", "fire", "revert", "seeds"], default=None)
+    ap.add_argument("--only", choices=["silent", "fire", "revert", "seeds", "refactors"], default=None)
     ap.add_argument("--json", default=None)
     a = ap.parse_args(argv)
     sys.path.insert(0, str(VERIF))
@@ -397,6 +421,9 @@ def main(argv: list[str] | None = None) -> int:
     if a.only in (None, "silent"):
         for name, fn in SILENT.items():
             jobs.append(("silent", name, (lambda fn=fn: fn(src)), allp))
+    if a.only in (None, "refactors"):
+        for (name, mk) in _refactor_variants(src):
+            jobs.append(("silent", name, mk, allp))
     if a.only in (None, "fire"):
         for mu in firing_mutants(src):
             jobs.append(("fire", f"{mu['pid']}: {mu['desc']}", mu["make"], [mu["pid"]]))
